@@ -4,6 +4,7 @@ import (
 	"bytes"
 	"fmt"
 	"image"
+	"math/bits"
 	"os"
 	"path/filepath"
 	"regexp"
@@ -117,10 +118,10 @@ var vp8lSides = []int{1, 2, 3, 4, 5, 7, 8, 9, 15, 16, 17, 31, 32, 33, 63, 64, 65
 // vp8lEncCases builds the deterministic list of encoder configurations.
 func vp8lEncCases(seed uint64, tier string) []func() vp8lCase {
 	perCombo := 40
-	nBig := 2
+	nBig := 4
 	if tier == "thorough" {
 		perCombo = 110
-		nBig = 6
+		nBig = 14
 	}
 	var gens []func() vp8lCase
 	idx := uint64(0)
@@ -176,13 +177,95 @@ func vp8lEncCases(seed uint64, tier string) []func() vp8lCase {
 			}
 		}
 	}
+	// pictures above the decoder's 100000-pixel parallel threshold, heights prime / odd (so that the
+	// row split over the workers has a remainder for every worker count) next to 320x320
 	for k := 0; k < nBig; k++ {
 		r := NewRNG(seed, 0x30000000+uint64(k))
 		cls := []int{ClsPhoto, ClsPal16, ClsNoise, ClsGradient, ClsPal256, ClsPal4}[k%6]
 		acls := []int{AlphaNone, AlphaGradient, AlphaBinary}[k%3]
-		gens = append(gens, mk(320, 320, cls, acls, r.Pick([]int{50, 75, 90}), []int{4, 6, 2, 5, 3, 1}[k%6], k%2 == 1, 0x900000+uint64(k)))
+		sz := vp8lBigSizes[(k+int(seed))%len(vp8lBigSizes)]
+		gens = append(gens, mk(sz[0], sz[1], cls, acls, r.Pick([]int{50, 75, 90}), []int{4, 6, 2, 5, 3, 1}[k%6], k%2 == 1, 0x900000+uint64(k)))
+	}
+	// threshold leg (thresholds.go): sizes just below / on / just above the numeric thresholds of the
+	// code, cheap content (flat / gradient / sparse marks / per-row colours)
+	nThr := 12
+	if tier == "thorough" {
+		nThr = 1 << 20
+	}
+	for k, tc := range DrawThresholdCases(seed, 0x03, nThr, ThresholdFilter{MaxPixels: 140000, MinValue: 200}) {
+		tc := tc
+		id := 0x980000 + uint64(k)
+		gens = append(gens, func() vp8lCase {
+			r := NewRNG(seed, 0x10000000+id)
+			kind := r.Intn(NumCheapClasses)
+			acls := []int{AlphaNone, AlphaNone, AlphaGradient, AlphaSparse}[r.Intn(4)]
+			img := GenCheapImage(r, tc.W, tc.H, kind, acls)
+			o := webp.DefaultOptions()
+			o.Lossless = true
+			o.Quality = float32(r.Pick([]int{25, 50, 75, 90}))
+			o.Method = r.Intn(7)
+			o.Exact = r.Bool()
+			desc := fmt.Sprintf("%s %s q=%d m=%d exact=%s", cheapDesc(tc.W, tc.H, kind, acls), tc.Tag(), int(o.Quality), o.Method, b2s(o.Exact))
+			var buf bytes.Buffer
+			if err := webp.Encode(&buf, img, o); err != nil {
+				return vp8lCase{kind: "encfail", desc: desc + ": " + err.Error()}
+			}
+			return vp8lCase{payload: vp8lPayload(buf.Bytes()), kind: "enc", desc: desc, src: img, exact: o.Exact, area: tc.W * tc.H}
+		})
 	}
 	return gens
+}
+
+var vp8lBigSizes = [][2]int{{317, 331}, {400, 251}, {256, 401}, {320, 320}, {1000, 101}, {101, 1000}, {333, 307}}
+
+// vp8lProcsLeg decodes every large encoder-made stream again under GOMAXPROCS 2, 3, 5 and 7 (the batch
+// runs under the ambient value): above 100000 pixels the decoder splits the inverse transforms and the
+// ARGB->NRGBA conversion by rows over the workers; every worker count must reproduce the source.
+func (v *vp8lRun) procsLeg(cases []vp8lCase) {
+	defer runtime.GOMAXPROCS(runtime.GOMAXPROCS(0))
+	for _, c := range cases {
+		if c.src == nil || c.area < 90000 {
+			continue
+		}
+		want := tightPix(c.src)
+		if !c.exact {
+			want = normPix(want)
+		}
+		for _, p := range []int{2, 3, 5, 7} {
+			runtime.GOMAXPROCS(p)
+			var got []byte
+			st, pm := guardT(func() string {
+				img, err := verifapi.DecodeVP8L(c.payload)
+				if err != nil {
+					return "err " + verifapi.VP8LErrorClass(err)
+				}
+				got = tightPix(img)
+				if !c.exact {
+					got = normPix(got)
+				}
+				return "ok"
+			})
+			v.rep.Count(fmt.Sprintf("big-decode:GOMAXPROCS=%d", p))
+			v.rep.Eval(true, append([]byte(fmt.Sprintf("procs=%d ", p)), c.payload...))
+			in := map[string]any{"op": "vp8l", "hex": hx(c.payload), "kind": c.kind, "config": c.desc, "procs": p}
+			switch {
+			case st == "ok" && bytes.Equal(got, want):
+			case st == "ok":
+				k := 0
+				for k < len(got) && k < len(want) && got[k] == want[k] {
+					k++
+				}
+				w := c.src.Rect.Dx()
+				v.add(Finding{Kind: "property", Property: "C01", Signature: "roundtrip:go-decode:gomaxprocs",
+					Detail: fmt.Sprintf("Go decoder's pixels differ from the source image when decoding with GOMAXPROCS=%d (%s): first difference at pixel (%d,%d)", p, c.desc, (k/4)%w, (k/4)/w), Input: in})
+			case st == "hang" || st == "skipped":
+				return
+			default:
+				v.add(Finding{Kind: "property", Property: "C01", Signature: "roundtrip:go-rejects:gomaxprocs",
+					Detail: fmt.Sprintf("Go decoder fails on an encoder output with GOMAXPROCS=%d (%s): %s %s", p, c.desc, st, pm), Input: in})
+			}
+		}
+	}
 }
 
 // vp8lMutate derives an invalid-or-different stream from a valid payload. Header mutations that
@@ -325,6 +408,7 @@ type vp8lRun struct {
 	phase   map[string]float64   // wall seconds per phase
 	kept    map[string][]Finding // per property|signature: the 5 findings with the shortest inputs
 	totals  map[string]int
+	aligns  uint32 // window alignments (bits read mod 32) at which a backward reference of an accepted long-code stream starts
 }
 
 // add keeps, per signature, the five findings with the shortest input (Report.Add keeps the first five).
@@ -446,6 +530,9 @@ func (v *vp8lRun) batch(all []vp8lCase, infoAll bool) error {
 			if strings.Contains(c.desc, " narrow=") {
 				rep.Count("syn:narrow:" + strings.SplitN(l, " ", 2)[0])
 			}
+			if strings.Contains(c.desc, " deg=") {
+				v.countLong(c.desc, strings.SplitN(l, " ", 2)[0])
+			}
 			rep.Count(fmt.Sprintf("syn:transforms=%d", strings.Count(strings.SplitN(c.desc, " ", 2)[0], "+")+b2i(!strings.HasPrefix(c.desc, "none"))))
 		}
 		if c.kind == "enc" {
@@ -552,6 +639,64 @@ func (v *vp8lRun) batch(all []vp8lCase, infoAll bool) error {
 	return nil
 }
 
+// countLong files the code-shape bookkeeping of the writer (gen_vp8l.go: deg= maxlen= span= aligns=).
+func (v *vp8lRun) countLong(desc, outcome string) {
+	rep := v.rep
+	var deg, maxlen, span int
+	var aligns uint32
+	isLong := false
+	for _, f := range strings.Fields(desc) {
+		switch {
+		case strings.HasPrefix(f, "deg="):
+			fmt.Sscanf(f, "deg=%d", &deg)
+		case strings.HasPrefix(f, "maxlen="):
+			fmt.Sscanf(f, "maxlen=%d", &maxlen)
+		case strings.HasPrefix(f, "span="):
+			fmt.Sscanf(f, "span=%d", &span)
+		case strings.HasPrefix(f, "aligns="):
+			fmt.Sscanf(f, "aligns=%x", &aligns)
+		case strings.HasPrefix(f, "long="):
+			isLong = true
+			var w, h int
+			fmt.Sscanf(f, "long=%dx%d", &w, &h)
+			for _, e := range []int{18, 17, 16, 15} {
+				if w*h >= 1<<uint(e) {
+					rep.Count(fmt.Sprintf("syn:long:pixels>=2^%d", e))
+					rep.Count(fmt.Sprintf("threshold:%dpixels", 1<<uint(e)))
+					break
+				}
+			}
+		}
+	}
+	if isLong {
+		rep.Count("syn:long:" + outcome)
+	}
+	if deg > 0 {
+		rep.Count("syn:degenerate-code:" + outcome)
+	}
+	if outcome != "ok" {
+		return
+	}
+	if maxlen >= 12 {
+		rep.Count(fmt.Sprintf("syn:used-codeword-bits:%d", maxlen))
+		rep.Count("threshold:15codebits")
+	}
+	// a backward reference whose green code [+ length extra bits] + distance code + distance extra bits,
+	// counted from where the token starts in the 32-bit window, runs past 32 / 48 / 64 bits
+	switch {
+	case span > 64:
+		rep.Count("syn:copy-span:>64")
+		rep.Count("threshold:32windowbits")
+	case span > 48:
+		rep.Count("syn:copy-span:49..64")
+	case span > 32:
+		rep.Count("syn:copy-span:33..48")
+	}
+	if isLong {
+		v.aligns |= aligns
+	}
+}
+
 func b2i(b bool) int {
 	if b {
 		return 1
@@ -560,7 +705,7 @@ func b2i(b bool) int {
 }
 
 func suiteVP8L(rep *Report) error {
-	rep.Rule = "streams: (a) webp.Encode Lossless outputs over colour class x alpha class x size (1x1, 1xN, Nx1, sides around 2^k, 320x320) x Quality {0,10,25,50,75,90,100} x Method 0..6 x Exact, VP8L payload extracted; (b) testdata lossless files and corpus/vp8l/*.hex; (c) streams of a random VP8L writer (any transform subset/order, tile bits 2..9, mode nibble 0..15, palettes 1..256, cache bits 1..11, meta codes, simple/single/normal codes, max_symbol, repeat codes; one third with a deliberate defect; every tenth stream is a picture of width 1..8 dense in short 2-D distance codes, incl. those whose offset maps to a distance below 1); (d) mutations of (a)-(c): bit flips, byte sets, truncations, fills, appended bytes. Each stream is decoded by lossless.DecodeVP8L and by the Lean spec decoder Webp.Spec.VP8L.decode; the lines (ok w h alpha pixel-digests | err header|bitstream) are compared; for (a) both decoders' pixels are also compared with the source image (alpha-0 pixels normalised unless Exact). Every Go decode runs under a 20 s deadline: a call that does not return is a finding (C05 hang:DecodeVP8L, and C03 vp8l-accept:go-hang-spec-ok when the spec decodes the stream) and ends the suite. non-trivial = the spec decoder got past the 5-byte header; distinct = FNV of the payload"
+	rep.Rule = "streams: (a) webp.Encode Lossless outputs over colour class x alpha class x size (1x1, 1xN, Nx1, sides around 2^k; 4 pictures >= 100000 pixels with prime/odd heights - 317x331, 400x251, 256x401, 1000x101, 101x1000 ... -, each also decoded under GOMAXPROCS 2,3,5,7; 12 cheap pictures on the numeric thresholds of the code, thresholds.go) x Quality {0,10,25,50,75,90,100} x Method 0..6 x Exact, VP8L payload extracted; (b) testdata lossless files and corpus/vp8l/*.hex; (c) streams of a random VP8L writer (any transform subset/order, tile bits 2..9, mode nibble 0..15, palettes 1..256, cache bits 1..11, meta codes, simple/single/normal codes, max_symbol, repeat codes; one third with a deliberate defect; every tenth stream is a picture of width 1..8 dense in short 2-D distance codes, incl. those whose offset maps to a distance below 1; 1 code in 12 has the degenerate shape 1,2,...,14,15,15; every twentieth stream is the long-code variant: degenerate green and distance codes with the length-prefix and distance symbols on the 12..15-bit words, half of the tokens long far backward references with up to 10 length and 10 distance extra bits, 1 in 20 of those on pictures of >= 2^15..2^18 pixels for 14..17 distance extra bits; the alignment of every such reference in the decoder's 32-bit window and the bits it needs are recorded); (d) mutations of (a)-(c): bit flips, byte sets, truncations, fills, appended bytes. Each stream is decoded by lossless.DecodeVP8L and by the Lean spec decoder Webp.Spec.VP8L.decode; the lines (ok w h alpha pixel-digests | err header|bitstream) are compared; for (a) both decoders' pixels are also compared with the source image (alpha-0 pixels normalised unless Exact). Every Go decode runs under a 20 s deadline: a call that does not return is a finding (C05 hang:DecodeVP8L, and C03 vp8l-accept:go-hang-spec-ok when the spec decodes the stream) and ends the suite. non-trivial = the spec decoder got past the 5-byte header; distinct = FNV of the payload"
 	v := &vp8lRun{rep: rep, mins: map[string]vp8lMin{}, kept: map[string][]Finding{}, totals: map[string]int{}, phase: map[string]float64{}}
 	finish := func() error {
 		mf := map[string]string{}
@@ -570,6 +715,7 @@ func suiteVP8L(rep *Report) error {
 		rep.Extra["min_failing_config"] = mf
 		rep.Extra["finding_totals"] = v.totals
 		rep.Extra["phase_s"] = v.phase
+		rep.Extra["long_code_copy_alignments_visited"] = fmt.Sprintf("%d of 32 (%08x)", bits.OnesCount32(v.aligns), v.aligns)
 		var keys []string
 		for k := range v.kept {
 			keys = append(keys, k)
@@ -649,6 +795,14 @@ func suiteVP8L(rep *Report) error {
 	if v.stopped {
 		return finish()
 	}
+	t0 = time.Now()
+	v.procsLeg(valid)
+	v.phase["procs-leg"] = time.Since(t0).Seconds()
+	for _, c := range valid {
+		if k := strings.Index(c.desc, "threshold:"); k >= 0 && c.kind == "enc" {
+			rep.Count(strings.Fields(c.desc[k:])[0])
+		}
+	}
 	// mutation sources: the small valid streams (sources are kept without their images)
 	var pool []vp8lCase
 	for _, c := range valid {
@@ -671,9 +825,16 @@ func suiteVP8L(rep *Report) error {
 			r := NewRNG(rep.Seed, 0x50000000+uint64(off+i))
 			var b []byte
 			var d string
-			if (off+i)%10 == 9 { // every tenth: the narrow-picture variant (width 1..8, short distance codes)
+			switch {
+			case (off+i)%10 == 9: // every tenth: the narrow-picture variant (width 1..8, short distance codes)
 				b, d = SynVP8LNarrow(r)
-			} else {
+			case (off+i)%20 == 3: // every twentieth: long code words on the symbols of long, far backward references
+				sc := 0
+				if (off+i)%400 == 3 { // 1 in 20 of those: >= 2^15 .. 2^18 pixels (14..17 distance extra bits)
+					sc = 1 + ((off+i)/400)%4
+				}
+				b, d = SynVP8LLong(r, sc)
+			default:
 				b, d = SynVP8L(r)
 			}
 			syn[i] = vp8lCase{payload: b, kind: "syn", desc: d}
